@@ -382,13 +382,13 @@ pub fn rev_syms(v: u128, bits: usize, k: usize) -> u128 {
     r
 }
 
-/// rotate symbols left by `n` positions (symbol i of the result = symbol (i+n) mod k)
+/// rotate symbols left by `n` (< k) positions: symbol i of the result = symbol (i+n) mod k.
+/// Closed form on the packed integer (v < 2^(k*bits), k*bits <= 128), no loop.
 pub fn rotl_syms(v: u128, bits: usize, k: usize, n: usize) -> u128 {
-    let mut r: u128 = 0;
-    let mut i = 0;
-    while i < k {
-        r |= (isym(v, bits, (i + n) % k) as u128) << (i * bits);
-        i += 1;
+    if n == 0 {
+        return v;
     }
-    r
+    let lo = v >> (n * bits); // symbols n.. move down to 0..
+    let hi = (v & mask128(n * bits)) << ((k - n) * bits); // symbols 0..n move to the top
+    (lo | hi) & mask128(k * bits)
 }
